@@ -71,6 +71,24 @@ func checkJSONConsumers(w *World, r *Result, rule string) int {
 		r.cond(first, rule, fl.fn.Name, cons+": guard first", pos,
 			"the first statement of the body that mentions the field is `if !f.Exported() { continue }`, which dominates every other use of the field: ignored fields contribute nothing",
 			"the body does not start with `if !f.Exported() { continue }`: an ignored field (unexported, json:\"-\", gomacro:\"ignore\") can reach the output or trigger generation of its type")
+		// 1b. no decision is taken on the unfiltered field list: a comparison of len(<struct>.Fields) in a json
+		// consumer changes the output when an ignored field is added
+		ast.Inspect(fl.fn.Decl.Body, func(x ast.Node) bool {
+			be, ok := x.(*ast.BinaryExpr)
+			if !ok {
+				return true
+			}
+			for _, side := range []ast.Expr{be.X, be.Y} {
+				call, ok := ast.Unparen(side).(*ast.CallExpr)
+				if !ok || !isBuiltinCall(info, call, "len") || len(call.Args) != 1 {
+					continue
+				}
+				if sel, ok := ast.Unparen(call.Args[0]).(*ast.SelectorExpr); ok && info.Uses[sel.Sel] == types.Object(w.Field("analysis", "Struct", "Fields")) {
+					r.bad(rule, fl.fn.Name, "decision on "+es(be), w.Pos(be.Pos()), "a decision is taken on the number of analysed fields, ignored ones included: adding an unexported, json:\"-\" or gomacro:\"ignore\" field changes the output (the property requires it to be unchanged); test the list of kept fields instead")
+				}
+			}
+			return true
+		})
 		// 2. names only from JSONName
 		uses := usesOf(info, fl.rs.Body, fl.v, "$f")
 		hasJSON, hasGoName := false, false
@@ -96,13 +114,16 @@ func checkJSONConsumers(w *World, r *Result, rule string) int {
 
 func checkC09(w *World, r *Result) {
 	r.Explanation = "Decides structural necessary conditions: CONS every loop over struct fields is classified, and each json consumer (TypeScript, Dart x2, SQL validator) starts with the Exported() guard and keys only by JSONName(); FLW-C09a the json tag reaches JSONName's result only through a split at the first comma, a tag-derived result is dominated by a non-emptiness test of that very value, and the fallback is the Go field name; AGR-C09b Exported() returns false exactly under json==\"-\" or gomacro==\"ignore\" and otherwise returns go/types' Exported(); AGR-C09c embedded fields are flattened exactly when Embedded() and the analysed type is a struct, and field, tag and type of a kept field come from the same index. Does not decide: full agreement with encoding/json on embedded-field conflicts/shadowing, nor invariance of the analysis itself (it analyses every field)."
-	r.Rules = []string{"CONS json consumers", "FLW-C09a tag options", "AGR-C09b ignore rules", "AGR-C09c flattening"}
+	r.Rules = []string{"CONS json consumers", "FLW-C09a tag options", "AGR-C09b ignore rules", "AGR-C09c flattening", "ALIAS-APPEND"}
+	aliasAppendRule(w, r, func(rel string) bool { return rel == "analysis" })
 	r.Assumptions = []string{"reflect.StructTag.Get implements the conventional tag syntax"}
 	n := checkJSONConsumers(w, r, "CONS")
 	r.note("json_consumers", n)
 	checkJSONName(w, r)
 	checkExported(w, r)
 	checkFlatten(w, r)
+	// an ignored field leaves the SQL validator unchanged also when it is the only field (rule shared with C04)
+	checkEmptyKeyList(w, r)
 }
 
 // tagGetKey: is e `X.Tag.Get("key")` / `X.Tag.Lookup("key")`? returns key.
@@ -544,7 +565,7 @@ func checkFlatten(w *World, r *Result) {
 		cs = append(cs, s)
 	}
 	// the comma-ok *Struct test shows up as an identifier condition (isStruct); resolve it
-	hasEmbedded, hasStruct, extra := false, false, []string{}
+	hasEmbedded, hasStruct, hasNoName, extra := false, false, false, []string{}
 	for _, c := range conds {
 		if c.expr == nil || c.loop {
 			continue
@@ -555,6 +576,8 @@ func checkFlatten(w *World, r *Result) {
 			hasEmbedded = true
 		case c.truth && isStructOkVar(info, fi.Decl, c.expr):
 			hasStruct = true
+		case c.truth && isJSONNameEmpty(info, fi.Decl, c.expr):
+			hasNoName = true
 		default:
 			if !c.truth {
 				s = "!(" + s + ")"
@@ -563,9 +586,9 @@ func checkFlatten(w *World, r *Result) {
 		}
 	}
 	pos := w.Pos(flatten.Pos())
-	r.cond(hasEmbedded && hasStruct && len(extra) == 0, "AGR-C09c", name, "flatten iff Embedded() and *Struct", pos,
-		"the fields of an embedded field are merged exactly under `field.Embedded()` and the analysed type being a struct, as encoding/json promotes them",
-		"the flattening branch is guarded by {"+strings.Join(cs, " ; ")+"} instead of exactly {field.Embedded(), type is *Struct}: promoted fields of some embedded structs are lost or foreign fields merged")
+	r.cond(hasEmbedded && hasStruct && hasNoName && len(extra) == 0, "AGR-C09c", name, "flatten iff Embedded(), no json name and *Struct", pos,
+		"the fields of an embedded field are merged exactly when it is embedded, its json tag has no name part (a name, or \"-\", makes it a regular field for encoding/json) and the analysed type is a struct",
+		"the flattening branch is guarded by {"+strings.Join(cs, " ; ")+"} instead of exactly {field.Embedded(), json name part == \"\", type is *Struct}: encoding/json promotes the fields of an embedded struct only when its tag gives it no name, so keys are merged that Go nests or omits (or the reverse)")
 	// regular append: StructField{Type: fieldType, Field: field, Tag: tag} with tag := StructTag(typ.Tag(i)) same i
 	lit := regular.Args[1].(*ast.CompositeLit)
 	okField, okTag, okType := false, false, false
@@ -630,4 +653,45 @@ func isStructOkVar(info *types.Info, fd *ast.FuncDecl, e ast.Expr) bool {
 		return true
 	})
 	return res
+}
+
+// isJSONNameEmpty: e is `X == ""` with X the name part of the json tag: the first result of
+// strings.Cut(<tag>.Get("json"), ",") bound by a single definition.
+func isJSONNameEmpty(info *types.Info, fd *ast.FuncDecl, e ast.Expr) bool {
+	be, ok := ast.Unparen(e).(*ast.BinaryExpr)
+	if !ok || be.Op != token.EQL {
+		return false
+	}
+	tv := info.Types[be.Y]
+	if tv.Value == nil || tv.Value.Kind() != constant.String || constant.StringVal(tv.Value) != "" {
+		return false
+	}
+	id := identOf(be.X)
+	if id == nil {
+		return false
+	}
+	obj := objOf(info, id)
+	found := false
+	n := 0
+	ast.Inspect(fd, func(x ast.Node) bool {
+		as, ok := x.(*ast.AssignStmt)
+		if !ok || len(as.Rhs) != 1 {
+			return true
+		}
+		for i, l := range as.Lhs {
+			if lid := identOf(l); lid != nil && objOf(info, lid) == obj {
+				n++
+				call, ok := ast.Unparen(as.Rhs[0]).(*ast.CallExpr)
+				if i == 0 && ok && fullName(calleeOf(info, call)) == "strings.Cut" && len(call.Args) == 2 {
+					if k, ok := tagGetKey(info, call.Args[0]); ok && k == "json" {
+						if sv := info.Types[call.Args[1]]; sv.Value != nil && sv.Value.Kind() == constant.String && constant.StringVal(sv.Value) == "," {
+							found = true
+						}
+					}
+				}
+			}
+		}
+		return true
+	})
+	return found && n == 1
 }
